@@ -74,6 +74,11 @@ structure Runtime where
       `drain()`), and `asyncio.wait_for(gather(...))` waits for the cancellation to complete — which `gather` reports
       as soon as one handler has finished, so `worker_serve` hangs only when every remaining handler is of that kind -/
   h2CancelDeadlocks : Bool
+  /-- asyncio (since the F32 repair): a cancelled connection handler still runs the application task's `finally: await
+      send(None)` to its end (the send task's own `finally` releases it): the stream is closed and, `terminated` being set and
+      no other stream left busy, the connection says GOAWAY before it is torn down.  trio delivers `Cancelled` at every
+      checkpoint: a cancelled handler says nothing more -/
+  h2CancelSaysGoaway : Bool
   /-- `lifespan_task.cancel(); await lifespan_task` lets the `CancelledError` of a lifespan task that was still running
       escape from `worker_serve` (asyncio before 9c9a997; false for both workers now) -/
   endCancelRaises : Bool
@@ -81,29 +86,39 @@ structure Runtime where
   recycleCmp : Extracted.Guards.Cmp
   deriving Repr, DecidableEq
 
-/-- the asyncio worker as the code is now (after the `fix:` commits b14e22f, 4c08dc8, 9c9a997, b7ab22b):
+/-- the asyncio worker as the code is now (after the `fix:` commits b14e22f, 4c08dc8, 9c9a997, b7ab22b and 1b98b61 (F32):
+    the HTTP/2 send task releases every waiting sender when it ends, so a cancelled handler with a stream in progress finishes):
     `lifespan.*.failed` no longer sets the event, `worker_serve` no longer awaits `server.wait_closed()` before the bounded
     wait for the handlers (so CPython's `wait_closed` semantics no longer matter), the `CancelledError` of the cancelled
-    lifespan task is swallowed, a fresh prior-knowledge HTTP/2 connection is idle.  Still true: a cancelled handler with an
-    HTTP/2 stream in progress never finishes (known finding F32). -/
+    lifespan task is swallowed, a fresh prior-knowledge HTTP/2 connection is idle. -/
 def Runtime.asyncio : Runtime :=
   { taskDoneCheckOnly := true, lifespanInNursery := false, failedSetsEvent := false, channelsClosedOnExit := false,
     exitCheckpoints := false,
     -- extracted from the exit path of asyncio/run.py: is `server.wait_closed()` awaited before the bounded wait for the handlers?
     waitClosedBlocksOnConnections := Extracted.Guards.asyncioWaitClosedBeforeDrain, stateCopiedAtServe := false,
-    h2PriorFreshIdleTimer := true, h2CancelDeadlocks := true, endCancelRaises := false, recycleCmp := Extracted.Guards.asyncioRecycleCmp }
+    h2PriorFreshIdleTimer := true,
+    -- extracted from protocol/h2.py: does `send_task` release every waiting sender (`finally: … stream_buffer.close()`) when it ends?
+    h2CancelDeadlocks := !Extracted.Guards.h2SendTaskReleasesSenders, h2CancelSaysGoaway := true, endCancelRaises := false,
+    recycleCmp := Extracted.Guards.asyncioRecycleCmp }
 
 /-- the trio worker as the code is now (after fa7ea28, b7ab22b): the channels are still closed behind a leaving application
     but a put on them is tolerated (`channelsClosedOnExit` = "such a put raises" = false) -/
 def Runtime.trio : Runtime :=
   { taskDoneCheckOnly := false, lifespanInNursery := true, failedSetsEvent := false, channelsClosedOnExit := false,
     exitCheckpoints := true, waitClosedBlocksOnConnections := false, stateCopiedAtServe := true,
-    h2PriorFreshIdleTimer := true, h2CancelDeadlocks := false, endCancelRaises := false, recycleCmp := Extracted.Guards.trioRecycleCmp }
+    h2PriorFreshIdleTimer := true, h2CancelDeadlocks := false, h2CancelSaysGoaway := false, endCancelRaises := false,
+    recycleCmp := Extracted.Guards.trioRecycleCmp }
 
-/-- history: the asyncio worker before those commits, on CPython ≥ 3.12.1 (F16, F18, F29, F31) -/
+/-- history: the asyncio worker before those commits, on CPython ≥ 3.12.1 (F16, F18, F29, F31, F32) -/
 def Runtime.asyncioBeforeFixes : Runtime :=
   { Runtime.asyncio with failedSetsEvent := true, waitClosedBlocksOnConnections := true, h2PriorFreshIdleTimer := false,
-                         endCancelRaises := true }
+                         endCancelRaises := true, h2CancelDeadlocks := true, h2CancelSaysGoaway := false }
+
+/-- history: the asyncio worker after all of those but before the F32 repair: a cancelled connection handler with an HTTP/2
+    stream in progress never finished (the application task's `finally: await send(None)` queued a 500 response for a send
+    task that was already gone and waited in `drain()`) -/
+def Runtime.asyncioBeforeF32 : Runtime :=
+  { Runtime.asyncio with h2CancelDeadlocks := true, h2CancelSaysGoaway := false }
 
 /-- history: the trio worker before those commits (F17, F31) -/
 def Runtime.trioBeforeFixes : Runtime :=
